@@ -590,6 +590,22 @@ func (fr *Frame) bigMethod(st *State, f *ssa.Function, m string, args []*Term, i
 		row := App("bigbytes", SByteArr, Ite(iLt(x, zero), Op("-", SInt, x), x))
 		st.heap[cls] = Store(h, ref, row)
 		return []*Term{MkSlice(ref, BVLit64(0, 64), n, n)}, true
+	case "SetString":
+		// literal arguments (package constants such as the curve order) are evaluated exactly
+		if args[2].IsLit() && args[2].val != nil {
+			for lit, t := range strLits {
+				if t == args[1] {
+					if v, ok := new(big.Int).SetString(lit, int(args[2].val.Int64())); ok {
+						fr.bigSet(st, z, IntLit(v))
+						return []*Term{z, True}, true
+					}
+					return []*Term{NilRef, False}, true
+				}
+			}
+		}
+		fr.bigSet(st, z, fc.fresh("big.SetString", SInt))
+		ok := fc.fresh("setstring.ok", SBool)
+		return []*Term{Ite(ok, z, NilRef), ok}, true
 	case "String", "Text":
 		return []*Term{fc.fresh("bigstr", SStr)}, true
 	case "Bits":
@@ -597,7 +613,20 @@ func (fr *Frame) bigMethod(st *State, f *ssa.Function, m string, args []*Term, i
 	}
 	// unknown method: result unconstrained, receiver value forgotten
 	fc.note("math/big method without a model: " + m)
-	fr.bigSet(st, z, fc.fresh("big."+m, SInt))
+	readOnly := true
+	for i := 0; i < f.Signature.Results().Len(); i++ {
+		if isBigIntPtr(f.Signature.Results().At(i).Type()) {
+			readOnly = false
+		}
+	}
+	for _, p := range []string{"Set", "Unmarshal", "Scan", "Fill", "GobDecode", "Rand", "Sqrt", "GCD", "ModInverse", "ModSqrt", "Binomial", "MulRange"} {
+		if strings.HasPrefix(m, p) {
+			readOnly = false
+		}
+	}
+	if !readOnly {
+		fr.bigSet(st, z, fc.fresh("big."+m, SInt))
+	}
 	var res []*Term
 	rs := f.Signature.Results()
 	for i := 0; i < rs.Len(); i++ {
